@@ -246,6 +246,13 @@ func TestC14(t *testing.T) {
 					select {
 					case err := <-exited:
 						if err != nil {
+							if ee, ok := err.(*exec.ExitError); ok && (ee.ExitCode() == 5 || ee.ExitCode() == 6) {
+								// the store refused an Append / SaveOffset / stream / Close of a single writer on
+								// a healthy file: nothing was injected
+								run.Violation("sqlite:single-writer-operation-failed", fmt.Sprintf("a single-writer run of Append / SaveOffset / ReadStream on a healthy database file failed (child exit %d; its stderr is in the shard log) [cycle %d]", ee.ExitCode(), c), map[string]any{"case": i, "plans": plans})
+								run.Finish()
+								t.Fatalf("child failed: %v", err)
+							}
 							t.Fatalf("child failed: %v", err)
 						}
 						exited <- nil
@@ -261,6 +268,18 @@ func TestC14(t *testing.T) {
 					cmd.Process.Signal(syscall.SIGKILL)
 					killed = true
 					break
+				}
+				if mode != "close" {
+					select {
+					case err := <-exited:
+						if ee, ok := err.(*exec.ExitError); ok && (ee.ExitCode() == 5 || ee.ExitCode() == 6) {
+							run.Violation("sqlite:single-writer-operation-failed", fmt.Sprintf("a single-writer run of Append / SaveOffset / ReadStream on a healthy database file failed (child exit %d; its stderr is in the shard log) [cycle %d]", ee.ExitCode(), c), map[string]any{"case": i, "plans": plans})
+							run.Finish()
+							t.Fatalf("child failed: %v", err)
+						}
+						exited <- err
+					default:
+					}
 				}
 				if time.Now().After(deadline) {
 					cmd.Process.Kill()
